@@ -124,4 +124,15 @@ CHECKS["C15"] = {
             "normally without starting later stages or finalizing adapters on partial chain lists.",
     "note": "worker/parent interrupt propagation through multiprocessing queues under A14 only; a second interrupt during clean-up is out of scope.",
 }
+CHECKS["C10"] = {
+    "engine": "symla",
+    "technique": "contract-based verification by exact symbolic execution of the real matrix classes: per class x operation postcondition view(result) == op(view(self)) over symbolic parameters, LAPACK primitives replaced by contract shims, equalities decided by sympy (rational-function identity) with exact-evaluation refutation",
+    "design_ref": "DESIGN.md section 7 C10 (revised: entrywise exact arrays at fixed shapes instead of the NC normal form)",
+    "text": "Every matrix class and constructor option (signs, lower/upper, supplied vs lazily computed factors, implicit sizes) is instantiated with exact symbolic parameters; array, left/right "
+            "products, transpose, inverse, diagonal, log|det|, eigendecomposition, square root, positive/negative scalar multiples, division and negation are compared with the dense view, "
+            "recursively for derived objects (depth 2; lite second level in the quick tier) and for Matrix @ Matrix products. Loop-free code over fully symbolic inputs: each discharged "
+            "obligation holds for ALL real parameter values of that shape.",
+    "note": "shapes are fixed (dimension 1-3, rank-1 updates): dimension-genericity is not proved; LAPACK shim table, sympy and sign decisions of transcendental expressions by sampling are "
+            "trusted; obligations sympy cannot simplify but that vanish at all sampled points are reported as bounded (numeric-only), never as proved; floats as reals.",
+}
 NOT_APPLICABLE = {}
